@@ -273,3 +273,58 @@ pub fn snap_cw1(inner: &dyn Contract<Empty>, deps: Deps, env: &Env, universe: &[
     }
     Snap::Cw1(Box::new(s))
 }
+
+pub fn snap_ics(inner: &dyn Contract<Empty>, deps: Deps, env: &Env) -> Snap {
+    let mut s = IcsSnap::default();
+    let cfg = inner_query::<cw20_ics20::msg::ConfigResponse>(inner, deps, env, &json!({"config":{}}));
+    let adm = inner_query::<cw_controllers::AdminResponse>(inner, deps, env, &json!({"admin":{}}));
+    s.ok = cfg.is_some() && adm.is_some();
+    if let Some(c) = cfg {
+        s.default_gas_limit = c.default_gas_limit;
+        s.default_timeout = c.default_timeout;
+    }
+    s.admin = adm.and_then(|a| a.admin);
+    let mut cur: Option<String> = None;
+    loop {
+        let p = inner_query::<cw20_ics20::msg::ListAllowedResponse>(
+            inner,
+            deps,
+            env,
+            &json!({"list_allowed":{"start_after":cur,"limit":30}}),
+        );
+        let p = match p {
+            Some(p) => p,
+            None => {
+                s.ok = false;
+                break;
+            }
+        };
+        let n = p.allow.len();
+        cur = p.allow.last().map(|a| a.contract.clone());
+        s.allowed.extend(p.allow.into_iter().map(|a| (a.contract, a.gas_limit)));
+        if n < 30 || s.allowed.len() > 5000 {
+            break;
+        }
+    }
+    if let Some(l) = inner_query::<cw20_ics20::msg::ListChannelsResponse>(inner, deps, env, &json!({"list_channels":{}})) {
+        for ch in l.channels {
+            if let Some(c) = inner_query::<cw20_ics20::msg::ChannelResponse>(inner, deps, env, &json!({"channel":{"id":ch.id}})) {
+                let mut m: std::collections::BTreeMap<String, (u128, u128)> = std::collections::BTreeMap::new();
+                for a in &c.balances {
+                    m.entry(a.denom()).or_insert((0, 0)).0 = a.amount().u128();
+                }
+                for a in &c.total_sent {
+                    m.entry(a.denom()).or_insert((0, 0)).1 = a.amount().u128();
+                }
+                for (d, (o, t)) in m {
+                    s.books.push((ch.id.clone(), d, o, t));
+                }
+            } else {
+                s.ok = false;
+            }
+        }
+    } else {
+        s.ok = false;
+    }
+    Snap::Ics(Box::new(s))
+}
